@@ -44,7 +44,7 @@ CLAIMED = {
         text="Bounded symbolic model checking of property-path evaluation through Graph.triples/subjects/objects/subject_objects: all "
              "depth<=1 path expressions (quick; all depth-2 in thorough) x edge-predicate shapes (n<=2, thorough 3 edges) x the four "
              "bound/unbound end combinations; edge end points and bound terms symbolic (falsy terms, terms absent from the graph, cycles "
-             "and self-loops are the solver's choice), and the same expressions as SPARQL triple patterns (rdflib's parser and translatePath; nodes symbolic IRIs or integer literals); produced pairs compared with composition/union/converse/closure, termination by a "
+             "and self-loops are the solver's choice), and the same expressions as SPARQL triple patterns (rdflib's parser and translatePath; nodes symbolic IRIs or integer literals); the depth<=1 expressions also through ReadOnlyGraphAggregate.triples over two member graphs; produced pairs compared with composition/union/converse/closure, termination by a "
              "step budget, no duplicates for closures. One recorded finding (negated sets with inverse members) is re-checked against an "
              "oracle modelling exactly that defect so that other violations at the same site are still reported.",
         ref="DESIGN.md section 3 C11"),
@@ -54,7 +54,7 @@ CLAIMED = {
              "(63 single-operator, 8 GRAPH, 408 depth-2 nestings; every variable-sharing pattern; data as symbolic IRIs and, in a second variant, as symbolic integer literals incl. the falsy one) is parsed and translated by rdflib "
              "itself, then evaluated over n=2..3 symbolic triples with symbolic query constants; the solution multiset (SELECT), the ASK "
              "boolean and the CONSTRUCT graph are compared with a reference evaluator written from SPARQL 1.1 section 18. Three recorded "
-             "scope deviations of rdflib's top-down evaluation are known findings keyed by a syntactic class of the query.",
+             "scope deviations of rdflib's top-down evaluation are known findings keyed by a syntactic class of the query. Operators inside GRAPH ?g with the same solution in two named graphs; every single-operator template without constants also as text through the public route Graph.query() -> SPARQLProcessor -> Result (type, vars, iteration twice, bindings, len, bool, askAnswer, graph) - one recorded finding there (iteration skips all-unbound solutions).",
         ref="DESIGN.md section 3 C04"),
     "C10": dict(
         technique="symbolic execution of rdflib's SPARQL Update evaluator (CrossHair + z3) against a dataset transformer written from the Update spec",
@@ -62,7 +62,7 @@ CLAIMED = {
              "DATA, DELETE WHERE, DELETE/INSERT/WHERE with overlapping delete/insert sets, unbound and illegal template terms, blank "
              "nodes, WITH, USING, GRAPH templates, CLEAR/DROP, ADD/MOVE/COPY over every src/dst incl. missing graphs and src=dst, "
              "multi-operation requests) applied through Graph, Dataset and ConjunctiveGraph with the default-graph-union switch off/on, "
-             "over n=2 (thorough 3) symbolic triples placed in default/g1/g2 by shape; every graph compared with the reference afterwards. Includes templates repeating a graph name in separate GRAPH blocks and GRAPH-block deletions meeting plain insertions on the WITH graph.",
+             "over n=2 (thorough 3) symbolic triples placed in default/g1/g2 by shape; every graph compared with the reference afterwards. Includes templates repeating a graph name in separate GRAPH blocks, GRAPH-block deletions meeting plain insertions on the WITH graph, a variable in two positions of one pattern, template blocks whose graph variable is unbound in some solutions; no other graph may receive triples; every template without constants also as text through the public route Graph.update().",
         ref="DESIGN.md section 3 C10"),
     "C08": dict(
         technique="symbolic execution of rdflib's modifier/aggregate evaluators (CrossHair + z3) against the SPARQL definitions; LIMIT/OFFSET and literal values symbolic",
@@ -70,7 +70,7 @@ CLAIMED = {
              "Maximum accumulators: ~45 modifier sets over BGP, UNION and OPTIONAL bases (unbound cells) on 0-3 (thorough 4) symbolic rows "
              "whose objects are integer literals with symbolic value or symbolic IRIs; DISTINCT/GROUP results as multisets, ORDER BY as "
              "'same multiset and no later row precedes an earlier one', slices with symbolic LIMIT/OFFSET against position bounds in the "
-             "ordered sequence. SUM/AVG/GROUP_CONCAT values are not claimed.",
+             "ordered sequence; the modifier sets without LIMIT/OFFSET also as text through the public route Graph.query() -> Result (iteration and bindings show the same sequence). SUM/AVG/GROUP_CONCAT values are not claimed.",
         ref="DESIGN.md section 3 C08"),
     "C13": dict(
         technique="symbolic execution of read APIs (CrossHair + z3) with a before/after store snapshot as frame condition; serializer purity only shape-symbolic",
@@ -86,7 +86,7 @@ CLAIMED = {
         text="Bounded symbolic differential checking without an oracle: BGP triple-pattern permutations, operand swaps of joins and unions, "
              "consistent variable renaming with PREFIX spelling over the C04/C08/C11 catalogues, initBindings vs a VALUES row with a "
              "symbolic term, one prepared Query object re-used on symbolic graphs G1, G2, G1 and with / without initBindings vs freshly prepared copies, data as symbolic IRIs and as (falsy-capable) integer literals, and the same "
-             "data in Memory / SimpleMemory / AuditableStore / ReadOnlyGraphAggregate; solution multisets must coincide for every content.",
+             "data in Memory / SimpleMemory / AuditableStore / ReadOnlyGraphAggregate; path patterns with both ends bound before vs after evaluation; the public route Graph.query(text, initNs=...) with one text under two namespaces in sequence; two prefixes for one namespace; solution multisets must coincide for every content.",
         ref="DESIGN.md section 3 C15"),
     "C05": dict(
         technique="z3 regular-language inclusion between W3C productions and live rdflib regex objects; CrossHair symbolic strings through the term readers/writers",
